@@ -15,8 +15,8 @@ import (
 type c16Case struct {
 	Proj  *project `json:"proj"`
 	Fault string   `json:"fault"`
-	Pos   string   `json:"pos"` // top | block | include | n/a
-	Cmd   string   `json:"cmd"` // generate | generate-stdin | update | compare | format | format-check | update-all | compare-all | compare-all-github | format-all | copyright
+	Pos   string   `json:"pos"`   // top | block | include | n/a
+	Cmd   string   `json:"cmd"`   // generate | generate-stdin | update | compare | format | format-check | update-all | compare-all | compare-all-github | format-all | copyright
 	Which string   `json:"which"` // for --all: first | middle | last target in walk order
 }
 
